@@ -183,6 +183,14 @@ func (x *Exec) special(s *State, fr *Frame, fn *types.Func, name string, recv Va
 		s.facts = append(s.facts, Eq(q, has))
 		rest := &SliceV{Rgn: a.Rgn, Off: x.ctx.Share(Add64(a.Off, p.Len)), Len: x.ctx.Share(Sub64(a.Len, p.Len)), Cap: x.ctx.Share(Sub64(a.Cap, p.Len))}
 		return &TupleV{V: []Value{x.mergeValue(q, rest, a), &Scalar{T: q}}}, true
+	case name == "strings.HasPrefix" || name == "strings.HasSuffix" || name == "strings.Contains":
+		// strings are opaque values: these predicates are unspecified but deterministic
+		a, b := scalarArg(args, 0), scalarArg(args, 1)
+		x.note("trusted", name+": a deterministic predicate of its two arguments (nothing else is assumed about it)")
+		r := x.ctx.UF("str$"+strings.ToLower(strings.TrimPrefix(name, "strings.")), SBool, a, b)
+		// the only fact used: a string that contains another one is at least as long
+		s.assume(Implies(r, Sle(x.strlen(b), x.strlen(a))))
+		return &Scalar{T: r}, true
 	case name == "bytes.Equal":
 		if x.opaque {
 			a, b := scalarArg(args, 0), scalarArg(args, 1)
